@@ -141,6 +141,44 @@ func init() {
 		return map[string]interface{}{"closed": []bool{ok}}
 	})
 
+	// ---------------------------------------------------------------- NewOutboundBreaker / Adjust with any (limit, interval)
+	// {limit, interval, adjust?}: is the pair refused; if a breaker exists afterwards, do Do/Status/Summary run without a panic.
+	// With "adjust" a valid breaker (1 per hour) is made first and Adjust(limit, interval) is called on it: a refused Adjust
+	// must leave it as it was (first Do admitted, second refused).
+	register("c20.breaker_new", func(c map[string]interface{}) (out interface{}) {
+		limit, interval := c20num(c, "limit"), time.Duration(c20num(c, "interval"))
+		var b *core.OutboundBreaker
+		var err error
+		adjust := c20bool(c, "adjust")
+		if adjust {
+			if b, err = core.NewOutboundBreaker(1, time.Hour); err != nil {
+				return map[string]interface{}{"err": "new:" + err.Error()}
+			}
+			err = b.Adjust(limit, interval)
+		} else {
+			b, err = core.NewOutboundBreaker(limit, interval)
+		}
+		rejected := err != nil
+		if rejected && !adjust {
+			return map[string]interface{}{"rejected": true}
+		}
+		defer func() {
+			if r := recover(); r != nil {
+				msg := fmt.Sprint(r)
+				kind := "panic"
+				if strings.Contains(msg, "divide by zero") {
+					kind = "divzero"
+				}
+				out = map[string]interface{}{"rejected": rejected, "do": kind, "panic": msg}
+			}
+		}()
+		first, _ := b.Do(nil)
+		second, _ := b.Do(nil)
+		b.Status()
+		b.Summary()
+		return map[string]interface{}{"rejected": rejected, "do": "ok", "first": first, "second": second}
+	})
+
 	// ---------------------------------------------------------------- Throttle bookkeeping under a forced schedule
 	// {pendingLimit, disabled, n, evs:[{ev:"sub",tid}|{ev:"disable",on}|{ev:"spawn"}]}
 	// The embedded breaker always admits; the submitted function blocks until released, so "sub tid" on an idle
@@ -234,7 +272,7 @@ func init() {
 	})
 
 	// ---------------------------------------------------------------- Throttle under real concurrency
-	// {attempts, pendingLimit, pause_us, limit, interval_ns, submitters, each, hold_us}
+	// {attempts, pendingLimit, pause_us, limit, interval_ns, submitters, each, hold_us, toggle?}
 	register("c20.throttle_stress", func(c map[string]interface{}) interface{} {
 		b, err := core.NewOutboundBreaker(c20num(c, "limit"), time.Duration(c20num(c, "interval_ns")))
 		if err != nil {
@@ -269,6 +307,25 @@ func init() {
 		}()
 		var wg sync.WaitGroup
 		gate := make(chan struct{})
+		if c20bool(c, "toggle") {
+			// Disable(true) / Disable(false) while submissions overflow: pending must still return to zero
+			pw.Add(1)
+			go func() {
+				defer pw.Done()
+				on := false
+				for {
+					select {
+					case <-stop:
+						th.Disable(false)
+						return
+					default:
+						on = !on
+						th.Disable(on)
+						time.Sleep(35 * time.Microsecond)
+					}
+				}
+			}()
+		}
 		for g := 0; g < n; g++ {
 			wg.Add(1)
 			go func() {
